@@ -792,6 +792,8 @@ func (d *Data) adjustMaxLabels(store storage.KeyValueSetter, root dvid.VersionID
 }
 
 func (d *Data) loadMaxLabels(wg *sync.WaitGroup, ch chan *storage.KeyValue) {
+	// signs off however it returns: its starter waits on the group
+	defer wg.Done()
 	ctx := storage.NewDataContext(d, 0)
 	var repoMax uint64
 	d.MaxLabel = make(map[dvid.VersionID]uint64)
@@ -838,7 +840,6 @@ func (d *Data) loadMaxLabels(wg *sync.WaitGroup, ch chan *storage.KeyValue) {
 			d.MaxRepoLabel = repoMax
 		}
 	}
-	wg.Done()
 }
 
 // --- datastore.DataService interface ---------
